@@ -1240,7 +1240,7 @@ func (s *sys) liveProc(cidx int) (*vm, *proc) {
 
 // faultEvents: classes that cost one unit of the fault budget.
 var faultClasses = map[string]bool{"crash": true, "stale": true, "linger": true, "break": true, "hang": true, "rbroken": true, "gone": true,
-	"arm": true, "hold": true, "drain": true, "unhold": true, "restart": true}
+	"arm": true, "hold": true, "drain": true, "unhold": true, "killinst": true, "restart": true}
 
 func eventCost(ev string) int {
 	if faultClasses[strings.SplitN(ev, ":", 2)[0]] {
@@ -1401,6 +1401,10 @@ func (s *sys) enabledEvents() []string {
 		if cfg.has("unhold") && w.Idle != worker.IdleBehaviorRun {
 			out = append(out, "unhold:"+w.ID)
 		}
+		// the operator shuts the instance down through the management API (Pool.KillInstance), whatever it runs
+		if cfg.has("killinst") {
+			out = append(out, "killinst:"+w.ID)
+		}
 	}
 	if cfg.has("restart") {
 		out = append(out, "restart")
@@ -1529,6 +1533,8 @@ func (s *sys) apply(ev string) {
 		s.pool.SetIdleBehavior(cloud.InstanceID(arg), worker.IdleBehaviorDrain)
 	case "unhold":
 		s.pool.SetIdleBehavior(cloud.InstanceID(arg), worker.IdleBehaviorRun)
+	case "killinst":
+		s.pool.KillInstance(cloud.InstanceID(arg), "operator request")
 	case "restart":
 		s.restart()
 	case "tick+release":
